@@ -274,44 +274,85 @@ def rule_config_keys(ctx, rid):
         return
     gpe = P.func('emd.sift.get_padded_extrema')
     ie = P.func('emd.sift.interp_envelope')
-    fallbacks = _fallback_literals(gpe) | _fallback_literals(ie) | _fallback_literals(P.func('emd.sift.sift')) \
-        | _fallback_literals(P.func('emd.sift.get_next_imf'))
     ex = cfg.get('extrema_opts', {})
 
     def norm(x):
         return x.value() if isinstance(x, SigDefault) else x
-    checks = [
-        ('get_padded_extrema loc_pad_opts fallback == configured loc_pad_opts', ('emd.sift.get_padded_extrema', 'loc_pad_opts'),
-         norm(ex.get('loc_pad_opts'))),
-        ('get_padded_extrema mag_pad_opts fallback == configured mag_pad_opts', ('emd.sift.get_padded_extrema', 'mag_pad_opts'),
-         norm(ex.get('mag_pad_opts'))),
-    ]
-    fb = {(q, name): val for q, name, val in fallbacks}
-    for text, key, want in checks:
-        got = fb.get(key)
-        if got is None:
-            ctx.undecided(rid, gpe, text, 'fallback literal not found')
-        elif got == want:
-            ctx.passed(rid, gpe, text, repr(got))
+    # what get_padded_extrema pads with when no pad options are given: read from the np.pad calls on the evaluated
+    # paths (works whether the fallback literal sits in the function or in a helper)
+    used = {'loc': set(), 'mag': set()}
+    exits = Evaluator(P).run(gpe, context={'mode': 'peaks', 'loc_pad_opts': None, 'mag_pad_opts': None})
+    ctx.paths += len(exits)
+    for e in exits:
+        if e.kind != 'return' or e.value[0] != 'tuple' or len(e.value[1]) != 2:
+            continue
+        for which, t in (('loc', e.value[1][0]), ('mag', e.value[1][1])):
+            while t[0] == 'call' and t[1] == 'numpy.pad':
+                mode = t[2][2] if len(t[2]) > 2 else dict(t[3]).get('mode')
+                d = {}
+                undecoded = False
+                if mode is not None:
+                    try:
+                        d['mode'] = term_literal(mode)
+                    except ValueError:
+                        undecoded = True
+                for k, v in t[3]:
+                    if k in ('mode', 'pad_width'):
+                        continue
+                    if k == '**':
+                        undecoded = True
+                        continue
+                    try:
+                        d[k] = term_literal(v)
+                    except ValueError:
+                        undecoded = True
+                used[which].add(None if undecoded else _freeze(d))
+                t = t[2][0]
+    for which, key in (('loc', 'loc_pad_opts'), ('mag', 'mag_pad_opts')):
+        text = 'get_padded_extrema %s fallback == configured %s' % (key, key)
+        want = norm(ex.get(key))
+        got = used[which]
+        if not got or None in got:
+            ctx.undecided(rid, gpe, text, 'cannot read the pad options used without user options')
+        elif got == {_freeze(want)} if isinstance(want, dict) else False:
+            ctx.passed(rid, gpe, text, repr(want))
         else:
             ctx.violation(rid, gpe, text, 'the pad options used when none are given differ from the configured '
-                          'defaults', expected=repr(want), found=repr(got))
-    # interp_envelope's fallback for extrema_opts must agree with get_padded_extrema's signature defaults
-    got = fb.get(('emd.sift.interp_envelope', 'extrema_opts'))
+                          'defaults', expected=repr(want), found=repr([_thaw(g) for g in got]))
+    # interp_envelope without extrema options must call get_padded_extrema with its signature defaults
     text = 'interp_envelope extrema_opts fallback == signature defaults of get_padded_extrema'
-    if got is None:
-        ctx.undecided(rid, ie, text, 'fallback literal not found')
+    exits = Evaluator(P).run(ie, context={'extrema_opts': None, 'mode': 'upper', 'interp_method': 'splrep'})
+    ctx.paths += len(exits)
+    calls = set()
+    for e in exits:
+        for t in subterms(e.value) if e.kind == 'return' else ():
+            if t[0] == 'call' and t[1] == 'emd.sift.get_padded_extrema':
+                calls.add(t)
+        for c, _, _ in e.state.conds:
+            for t in subterms(c):
+                if t[0] == 'call' and t[1] == 'emd.sift.get_padded_extrema':
+                    calls.add(t)
+    if not calls:
+        ctx.undecided(rid, ie, text, 'no call of get_padded_extrema found')
     else:
         bad = {}
-        for k, val in got.items():
-            d = gpe.defaults.get(k)
-            dv = ast.literal_eval(d) if d is not None else '<no such formal>'
-            if dv != val:
-                bad[k] = (val, dv)
+        for t in calls:
+            for k, v in t[3]:
+                if k in ('X', 'mode', '**'):
+                    if k == '**':
+                        bad['**'] = show(v)[:40]
+                    continue
+                d = gpe.defaults.get(k)
+                try:
+                    dv = ast.literal_eval(d) if d is not None else '<no such formal>'
+                    if term_literal(v) != dv:
+                        bad[k] = (term_literal(v), dv)
+                except ValueError:
+                    bad[k] = show(v)[:40]
         if bad:
             ctx.violation(rid, ie, text, 'fallback %s differs from the signature defaults' % bad)
         else:
-            ctx.passed(rid, ie, text, repr(got))
+            ctx.passed(rid, ie, text, '%d call form(s)' % len(calls))
     # configured nested scalar defaults equal the stage signature defaults by construction (harvested live):
     for carrier, stage_q in STAGES.items():
         sub = cfg.get(carrier, {})
